@@ -32,8 +32,14 @@ fn op(u: &mut Unstructured, n: usize) -> arbitrary::Result<Op> {
             1 => Raw::PubRec(u.int_in_range(0..=101)?),
             2 => Raw::PubRel(u.int_in_range(0..=101)?),
             3 => Raw::PubComp(u.int_in_range(0..=101)?),
-            4 => Raw::PublishBytes { topic: u.bytes(u.int_in_range(0..=6)?)?.to_vec(), qos: u.int_in_range(0..=2)?, retain: u.arbitrary()? },
-            5 => Raw::Subscribe { filter: String::from_utf8_lossy(u.bytes(u.int_in_range(0..=8)?)?).to_string(), qos: u.int_in_range(0..=2)?, sub_id: None },
+            4 => {
+                let n = u.int_in_range(0..=6)?;
+                Raw::PublishBytes { topic: u.bytes(n)?.to_vec(), qos: u.int_in_range(0..=2)?, retain: u.arbitrary()? }
+            }
+            5 => {
+                let n = u.int_in_range(0..=8)?;
+                Raw::Subscribe { filter: String::from_utf8_lossy(u.bytes(n)?).to_string(), qos: u.int_in_range(0..=2)?, sub_id: None }
+            }
             _ => Raw::Connect,
         }, notify: true },
         18 => Op::Stale { id: *u.choose(&[0usize, 1, 2, 3, 7, 1_000_000, usize::MAX])?, kind: u.int_in_range(0..=3)? },
